@@ -130,11 +130,17 @@ def saveload(tier):
         cfgs.append(("DilResNet", lambda key, kw=kw: models.DilResNet(D, sig, sig, depth=2, num_blocks=1, use_group_norm=False, key=key, **kw)))
         if tier != "quick" or eq_:
             cfgs.append(("UNet", lambda key, kw=kw, eq_=eq_: models.UNet(D, sig, sig, depth=2, num_downsamples=1, num_conv=1, use_group_norm=eq_, upsample_filters=up if eq_ else None, key=key, **kw)))
+    import equinox as eqx
+    # a model whose non-array LEAVES (python bool fields that are not static) matter for the output, saved with non-default values
+    # (static fields are not leaves: a 'same-structured' like-model shares them by definition)
+    inner = lambda key: models.ResNet(D, sig, sig, depth=2, num_blocks=1, use_group_norm=False, key=key, equivariant=False, kernel_size=3)
+    cfgs.append(("GroupAverage(saved in inference mode)", lambda key: models.GroupAverage(inner(key), list(ops), inference=(int(key[1]) == 1))))
     for name, mkm in cfgs:
         m1 = mkm(random.PRNGKey(1))
         m2 = mkm(random.PRNGKey(2))
         with tempfile.TemporaryDirectory() as td:
             f = os.path.join(td, "m.eqx")
+            ml.save(f, m2)             # an older save of another model in the same file must be overwritten
             ml.save(f, m1)
             m3 = ml.load(f, m2)
         y1, y3 = m1(x)[0], m3(x)[0]
